@@ -109,6 +109,35 @@ func (o *Out) Close() {
 	}
 }
 
+// ReadCases parses a case file back into groups (the model name is dropped).
+func ReadCases(path string) [][]Group {
+	data, err := os.ReadFile(path)
+	if err != nil {
+		panic(err)
+	}
+	var res [][]Group
+	for _, line := range strings.Split(string(data), "\n") {
+		toks := strings.Fields(line)
+		if len(toks) == 0 {
+			continue
+		}
+		var gs []Group
+		cur := Group{}
+		for _, t := range toks[1:] {
+			if t == "|" {
+				gs = append(gs, cur)
+				cur = Group{}
+				continue
+			}
+			v, _ := strconv.ParseInt(t, 10, 64)
+			cur = append(cur, v)
+		}
+		gs = append(gs, cur)
+		res = append(res, gs)
+	}
+	return res
+}
+
 func EnvSeed() uint64 {
 	if s := os.Getenv("VERIF_SEED"); s != "" {
 		if v, err := strconv.ParseUint(s, 10, 64); err == nil {
